@@ -212,4 +212,46 @@ theorem waiter_eventually_returns (r : Run St Op step) (h0 : Reach set0 now spur
     right
     exact ⟨((hinv_reach (reach_run r h0 k)).relockTO u dl hpc).1, by simpa using h2⟩
 
+/-- program points inside wait() / wait(timeout) -/
+def inWait : Pc → Option (Option Deadline)
+  | .wLock dl | .wUnlock _ dl | .wEnter dl | .wBlocked dl | .wRelock dl _ => some dl
+  | _ => none
+
+/-- **Liveness, every present and future waiter**: on every run that is weakly fair for all threads and whose internal
+    mutex is starvation-free, a thread that is ANYWHERE inside wait() / wait(timeout) at a moment from which the signal
+    remains set — blocked in the condition wait, or having just called wait() (a future waiter), or on its way back
+    from a wake-up — returns: with `true`, unless it is a timed wait whose time-out had fired. -/
+theorem every_waiter_eventually_returns (r : Run St Op step) (h0 : Reach set0 now spur (r.st 0))
+    (hwf : WeakFair r prog) (hsf : StrongFair r lk) (n : Nat) (hset : ∀ m, n ≤ m → (r.st m).flag = true)
+    (u : Tid) (dl : Option Deadline) (hu : inWait ((r.st n).pc u) = some dl) :
+    ∃ m, n ≤ m ∧ (r.st m).pc u = .idle ∧
+      ((r.st m).ret u = some (.bool true) ∨ (dl ≠ none ∧ (r.st m).ret u = some (.bool false))) := by
+  have hi := inv_reach (reach_run r h0 n)
+  have hh := hinv_reach (reach_run r h0 n)
+  cases hp : (r.st n).pc u <;> simp [hp, inWait] at hu
+  case wLock d =>
+    subst hu
+    obtain ⟨m, hm, h1, h2⟩ := stage_lock r h0 hwf hsf n hset n (Nat.le_refl _) u d false (Or.inl ⟨hp, rfl⟩)
+    exact ⟨m, hm, h1, Or.inl (by simpa using h2)⟩
+  case wUnlock b d =>
+    subst hu
+    obtain ⟨m, hm, h1, h2⟩ := stage_unlock r h0 hwf n u b d hp
+    refine ⟨m, hm, h1, ?_⟩
+    cases b with
+    | true => exact Or.inl h2
+    | false => exact Or.inr ⟨(hh.unlockF u d hp).1, h2⟩
+  case wEnter d =>
+    have := hi.enterFalse u d hp
+    rw [hset n (Nat.le_refl _)] at this; cases this
+  case wBlocked d =>
+    subst hu
+    exact waiter_eventually_returns r h0 hwf hsf n hset u d hp
+  case wRelock d b =>
+    subst hu
+    obtain ⟨m, hm, h1, h2⟩ := stage_lock r h0 hwf hsf n hset n (Nat.le_refl _) u d b (Or.inr hp)
+    refine ⟨m, hm, h1, ?_⟩
+    cases b with
+    | false => exact Or.inl (by simpa using h2)
+    | true => exact Or.inr ⟨(hh.relockTO u d hp).1, by simpa using h2⟩
+
 end Nstd.Sync.Signal
